@@ -338,6 +338,8 @@ def work_inventory(job):
 
 def atom_kind(aid, mode):
     """-> ['num', value] | ['ar', tag] | ['kr', tag]  (plain data)."""
+    if aid >= 3000:       # receiver atoms of a class with UNIPOLAR signal range
+        return ['uar' if aid % 2 == 0 else 'ukr', float(aid)]
     if aid >= 1000:                       # receiver atoms: always units
         return ['ar' if aid % 2 == 0 else 'kr', float(aid)]
     leaf = aid % 8
@@ -362,6 +364,10 @@ def make_atoms(table):
             out[aid] = k[1]
         elif k[0] == 'ar':
             out[aid] = oscillators.SinOsc.ar(k[1])
+        elif k[0] == 'uar':           # signal_range() == 'unipolar'
+            out[aid] = oscillators.LFPulse.ar(k[1])
+        elif k[0] == 'ukr':           # signal_range() == 'unipolar'
+            out[aid] = oscillators.Impulse.kr(k[1])
         else:
             out[aid] = oscillators.SinOsc.kr(k[1])
     return out
@@ -999,7 +1005,41 @@ POLL_TID = ['o', 'l2']
 POLL_RECV = ['c1', 'c2', 'c3', 'cc21', 'ks']
 
 
+# Receivers whose channels are units of a class with signal_range()
+# 'unipolar' (atoms >= 3000: LFPulse.ar / Impulse.kr), alone and mixed with
+# bipolar channels (atoms 1000..: SinOsc): each channel keeps its own range
+_U = lambda i: ['s', 3000 + i]
+_B = lambda i: ['s', 1000 + i]
+UNI_RECV = {'u1': ['c', _U(0)], 'u2': ['c', _U(0), _U(1)],
+            'um2': ['c', _U(0), _B(1)], 'um3': ['c', _B(0), _U(1), _B(2)],
+            'ucc21': ['c', ['c', _U(0), _B(1)], _U(2)]}
+RANGE_METHODS = ('range', 'exprange', 'curverange', 'unipolar', 'bipolar')
+RANGE_ARGS = ['s', 'l2', 'l3', 'o']
+
+
+def range_cases(inv, modes):
+    """The range-mapping methods on channel lists with unipolar channels."""
+    for m in inv['methods']:
+        if m['name'] not in RANGE_METHODS:
+            continue
+        n = len(m['params'])
+        seen = set()
+        for sh in itertools.product(RANGE_ARGS, repeat=n):
+            sh = list(sh)
+            last = max([k for k, x in enumerate(sh) if x != 'o'], default=-1)
+            sh = ['s' if x == 'o' and k < last else x
+                  for k, x in enumerate(sh)]
+            if tuple(sh) in seen:
+                continue
+            seen.add(tuple(sh))
+            for rs in UNI_RECV:
+                for mode in modes:
+                    yield {'t': 'meth', 'name': m['name'], 'recv': rs,
+                           'args': sh, 'mode': mode}
+
+
 def meth_cases(inv, modes):
+    yield from range_cases(inv, modes)
     for m in inv['methods']:
         params = [p for p in m['params'] if p not in OPT_PARAMS]
         n = len(params)
@@ -1058,7 +1098,7 @@ def meth_cases(inv, modes):
 def meth_specs(case):
     """-> (specs [receiver, positional arguments...], keyword name or None
     for the last spec, atom table)"""
-    recv = shape_spec(case['recv'], 1000)
+    recv = UNI_RECV.get(case['recv']) or shape_spec(case['recv'], 1000)
     args, strs = [], {}
     for j, sh in enumerate(case['args']):
         if sh in POLL_LABEL:
@@ -1652,6 +1692,10 @@ def standalone(case):
         k = table[aid]
         if k[0] in ('num', 'str', 'py'):
             atoms.append(f'    x{aid} = {k[1]!r}')
+        elif k[0] == 'uar':
+            atoms.append(f'    x{aid} = LFPulse.ar({k[1]!r})   # unipolar')
+        elif k[0] == 'ukr':
+            atoms.append(f'    x{aid} = Impulse.kr({k[1]!r})   # unipolar')
         else:
             atoms.append(f'    x{aid} = SinOsc.{k[0]}({k[1]!r})')
     atoms = '\n'.join(atoms) or '    pass'
@@ -1672,7 +1716,7 @@ def standalone(case):
         "import sc3; sc3.init('nrt')\n"
         "from sc3.synth.synthdef import SynthDef\n"
         "from sc3.synth.ugen import ChannelList\n"
-        "from sc3.synth.ugens.oscillators import SinOsc\n"
+        "from sc3.synth.ugens.oscillators import SinOsc, LFPulse, Impulse\n"
         + ''.join(i + '\n' for i in imports) + pre + _edit_src(case) +
         f"\ndef with_lists():\n{atoms}\n"
         f"{show(specs, 'with lists:')}\n"
